@@ -244,7 +244,24 @@ def structural_rules(ctx: Ctx):
                f"each filter must be scanned with Automaton.iter (reports every occurrence of every string, overlapping ones included); "
                f"found {[norm(s_.func)[:60] for s_ in scans]}", node=scans[0] if scans else ge, mod=m)
         for sc in scans:
-            argf = Locals(ge).text(sc.args[0], sc).replace(textp or "\0", "@") if sc.args else "?"
+            arg0 = sc.args[0] if sc.args else None
+            # `text = text.lower()` right before the scan in the same block: the scanned value is that expression of the parameter
+            if isinstance(arg0, ast.Name):
+                st_ = sc
+                while getattr(st_, "parent", None) is not None and not any(st_ in (getattr(st_.parent, f_, None) or []) for f_ in ("body", "orelse", "finalbody")):
+                    st_ = st_.parent
+                par_ = getattr(st_, "parent", None)
+                for f_ in ("body", "orelse", "finalbody"):
+                    blk_ = getattr(par_, f_, None) or []
+                    if st_ in blk_:
+                        for prev_ in reversed(blk_[:blk_.index(st_)]):
+                            if isinstance(prev_, ast.Assign) and len(prev_.targets) == 1 and norm(prev_.targets[0]) == arg0.id:
+                                if names_in(prev_.value) == {arg0.id}:
+                                    arg0 = prev_.value
+                                break
+                            if arg0.id in assigned_names(prev_):
+                                break
+            argf = (norm(arg0) if arg0 is not sc.args[0] else Locals(ge).text(sc.args[0], sc)).replace(textp or "\0", "@") if sc.args else "?"
             ctx.ob("R-C13-4", f"{q}.get_extractors/{x['attr']}:normalisation", argf == keyf,
                    f"strings are inserted as `{norm(x['key'])}` and the text is scanned as `{norm(sc.args[0]) if sc.args else '?'}`: both sides must be normalised by the same function",
                    node=sc, mod=m)
